@@ -108,6 +108,15 @@ fn gen(ctx: &GenCtx, i: u64) -> Option<Run> {
                     others.push(KeySpec::Rsa { fixture: f });
                 }
             }
+            // same modulus, another public exponent: flip single bits in the last three DER bytes
+            if let crate::keys::KeyMat::Rsa { pubder, .. } = crate::keys::resolve(&kspec) {
+                for bit in [0usize, 1, 7, 8, 15, 16, 17, 23] {
+                    let mut d = pubder.to_vec();
+                    let l = d.len();
+                    d[l - 1 - bit / 8] ^= 1 << (bit % 8);
+                    others.push(KeySpec::RawPublic { hex: hex::encode(d) });
+                }
+            }
             others.push(KeySpec::RawPublic { hex: "3000".into() });
             others.push(KeySpec::RawPublic { hex: String::new() });
             others.push(KeySpec::RawPublic { hex: hex::encode(r.bytes(270)) });
@@ -172,6 +181,16 @@ fn gen(ctx: &GenCtx, i: u64) -> Option<Run> {
             spec.default_validators = vlayer == Layer::Batteries;
             let v = rb.verifier(spec);
             rb.deliver(tok.msg, v, at);
+        }
+    }
+    // keys also enter as hex text: what is accepted must denote exactly its bytes (all cases of digits)
+    for n in [32usize, 64] {
+        let bytes = r.bytes(n);
+        let lower = hex::encode(&bytes);
+        let upper = lower.to_uppercase();
+        let mixed: String = lower.chars().map(|c| if r.chance(1, 2) { c.to_ascii_uppercase() } else { c }).collect();
+        for text in [lower, upper, mixed, "AB".repeat(n), "aB".repeat(n), "Ff".repeat(n)] {
+            rb.push(Op::KeyParse { n, text });
         }
     }
     // heal: right key, fresh verifier
